@@ -462,16 +462,46 @@ impl Recorder {
         parity_db::verif::set_sink(Some(Arc::new(move |name: &'static str, args: &[u64]| {
             r2.hook(name, args);
         })));
+        let r3 = r.clone();
+        crate::sys::set_observer(Some(Arc::new(move |call: &str, name: &str, ret: i64| {
+            r3.sys(call, name, ret);
+        })));
         r
     }
     pub fn uninstall() {
         parity_db::verif::set_sink(None);
+        crate::sys::set_observer(None);
+    }
+    /// a file operation reported by the interposed libc entry points
+    fn sys(&self, call: &str, name: &str, ret: i64) {
+        let watched = name.starts_with("log") || name.starts_with("table_") || name.starts_with("index_") || name.starts_with("refcount_");
+        if !watched {
+            return
+        }
+        let mut pos = 0usize;
+        if self.enabled.load(std::sync::atomic::Ordering::Relaxed) {
+            let mut ev = self.events.lock().unwrap();
+            ev.push(json!({"e": "Sys", "call": call, "f": name, "ret": ret, "log": name.starts_with("log"), "t": tid()}));
+            pos = ev.len();
+        }
+        let cb = self.callback.lock().unwrap().clone();
+        if let Some(cb) = cb {
+            cb("Sys", &[], pos);
+        }
     }
     fn hook(&self, name: &str, args: &[u64]) {
         let mut pos = 0usize;
         if self.enabled.load(std::sync::atomic::Ordering::Relaxed) {
             let mut ev = self.events.lock().unwrap();
-            if name == "CommitLin" {
+            if name == "TabWrite" {
+                let id = args[1];
+                let f = match args[0] {
+                    1 => format!("table_{:02}_{:02x}", id >> 8, id & 0xff),
+                    2 => format!("index_{:02}_{}", id >> 8, id & 0xff),
+                    _ => format!("refcount_{:02}_{}", id >> 8, id & 0xff),
+                };
+                ev.push(json!({"e": name, "a": args, "f": f, "t": tid()}));
+            } else if name == "CommitLin" {
                 let tx = PENDING_TX.with(|p| p.borrow_mut().take()).unwrap_or(J::Null);
                 ev.push(json!({"e": "Commit", "cid": args[0], "tx": tx, "t": tid()}));
             } else {
